@@ -1,8 +1,8 @@
-import Infretis.Lemmas.RepexC03Init
+import Infretis.Lemmas.RepexC03Load
 /-!
 # C03 — a busy ensemble, path, engine or work directory is never shared
 
-Property theorems only (helper lemmas: `Infretis/Lemmas/RepexC03{Perm,Core,Treat,Eng,Sys,Init}.lean`).
+Property theorems only (helper lemmas: `Infretis/Lemmas/RepexC03{Perm,Core,Treat,Eng,Sys,Init,Load}.lean`).
 Model: `Infretis/Model/Repex.lean` — `REPEX_state` as a state machine and the two loops of
 `scheduler()` as the event system `sysStep` / `run` over explicit outcomes:
 `.start o` (one iteration of `while state.initiate()`), `.initDone` (the closing `initiate()` call),
@@ -66,38 +66,21 @@ theorem exS0_loaded : loadPaths exBlank
     [(0, [1], [0,0,0,0]), (1, [1,1,0], [0,0,0,0]), (2, [1,1,0], [0,0,0,0])] = .ok exS0 := by
   decide +kernel
 
-theorem ex_init : Init exSys := by
-  have hT : exSys.s.trajs = [some 0, some 1, some 2, none] := by decide +kernel
-  have hn : exSys.s.n = 4 := by decide +kernel
-  have htn : exSys.s.trajNum = 3 := by decide +kernel
-  constructor
-  · rfl
-  · rw [hn]; decide
-  · decide +kernel
-  · decide +kernel
-  · decide +kernel
-  · intro e he
-    rw [hn] at he
-    rw [hT, htn]
-    match e, he with
-    | 0, _ => exact ⟨0, rfl, by decide⟩
-    | 1, _ => exact ⟨1, rfl, by decide⟩
-    | 2, _ => exact ⟨2, rfl, by decide⟩
-  · intro a b pn ha hb h1 h2
-    rw [hn] at ha hb
-    rw [hT] at h1 h2
-    match a, ha, b, hb with
-    | 0, _, 0, _ => rfl
-    | 1, _, 1, _ => rfl
-    | 2, _, 2, _ => rfl
-    | 0, _, 1, _ => simp at h1 h2; omega
-    | 0, _, 2, _ => simp at h1 h2; omega
-    | 1, _, 0, _ => simp at h1 h2; omega
-    | 1, _, 2, _ => simp at h1 h2; omega
-    | 2, _, 0, _ => simp at h1 h2; omega
-    | 2, _, 1, _ => simp at h1 h2; omega
-  · decide +kernel
-  · decide +kernel
+/-- **`Init` is what a fresh start produces**: `REPEX_state.__init__` followed by `load_paths` on
+    `n − 1` initial paths with pairwise distinct numbers below `trajNum` (any weights, any number of
+    workers, any engine table), `n ≥ 2` slots, no restart jobs — if `load_paths` does not raise, the
+    resulting state with nothing in flight satisfies `Init`. -/
+theorem fresh_start_is_init (n workers tsteps cstep trajNum seed : Nat) (occ : List (List Int))
+    (ensEng : List (List Nat)) (restarted : Bool) (paths : List (Nat × List Rat × List Rat)) (s : St)
+    (hn : 2 ≤ n) (hlen : paths.length = n - 1) (hnd : (paths.map (·.1)).Nodup)
+    (hlt : ∀ p ∈ paths, p.1 < trajNum)
+    (h : loadPaths (blank n workers tsteps cstep trajNum seed occ ensEng restarted []) paths = .ok s) :
+    Init { s := s, jobs := [] } :=
+  init_of_loadPaths n workers tsteps cstep trajNum seed occ ensEng restarted paths s hn hlen hnd hlt h
+
+theorem ex_init : Init exSys :=
+  fresh_start_is_init 4 2 10 0 3 0 [[-1, -1]] [[0], [0], [0]] false _ exS0 (by decide) (by decide)
+    (by decide) (by decide) exS0_loaded
 
 /-- the whole history runs, and so does every prefix -/
 theorem ex_runs (k : Nat) (hk : k ≤ 5) : run exSys (exEvs.take k) = .ok (exAt k) := by
